@@ -120,6 +120,16 @@ class Shelf(typing.Dict[T, ListBox[int]]):
         return 'Shelf(%s)' % dict.__repr__(self)
 
 
+class Table(typing.Dict[S, T]):
+    def __repr__(self):
+        return '%s(%s)' % (type(self).__name__, dict.__repr__(self))
+
+
+class IntTable(Table[int, T]):
+    """A generic that binds one parameter of its generic base and hands its own type variable on to the other: in IntTable[X]
+    the keys are ints and the values are X."""
+
+
 class Pair(Generic[T, S]):
     def __init__(self, a=None, b=None):
         self.a, self.b = a, b
@@ -165,14 +175,17 @@ CLASSES = {
     'complex': complex, 'list': list, 'dict': dict, 'tuple': tuple, 'set': set,
     'frozenset': frozenset, 'object': object, 'type': type,
     'A': A, 'B': B, 'C': C, 'NoWeak': NoWeak, 'Named': Named,
-    'Box': Box, 'ListBox': ListBox, 'Pair': Pair, 'Shelf': Shelf,
+    'Box': Box, 'ListBox': ListBox, 'Pair': Pair, 'Shelf': Shelf, 'IntTable': IntTable,
 }
 PROTOS = {'SupportsLenP': SupportsLenP, 'HasNameP': HasNameP,
           'Sized': cabc.Sized, 'Hashable': cabc.Hashable,
           'SupportsInt': typing.SupportsInt, 'SupportsAbs': typing.SupportsAbs}
 TYPEVARS = {'T': T, 'TB': TB, 'TI': TI, 'TC': TC, 'TS': TS}
 NEWTYPES = {'UserId': UserId, 'Label': Label}
-GENERICS = {'Box': Box, 'ListBox': ListBox, 'Pair': Pair, 'Shelf': Shelf}
+# Models of *known defects* of the library, switched on only by the signature functions of known findings to decide whether a
+# violation is explained by that defect (see props/c02.py); never on while a check is deciding.
+DEFECT_MODELS = set()
+GENERICS = {'Box': Box, 'ListBox': ListBox, 'Pair': Pair, 'Shelf': Shelf, 'IntTable': IntTable}
 
 # Validator predicates: total functions. Named functions, not lambdas: beartype
 # reprs a lambda validator by re-parsing its source file (~80 ms per hint).
@@ -561,6 +574,8 @@ def build_obj(o, env=None):
         return Shelf((build_obj(a, env), build_obj(b, env)) for a, b in o['i'])
     if k == 'listbox':
         return ListBox(build_obj(i, env) for i in o['i'])
+    if k == 'inttable':
+        return IntTable((build_obj(a, env), build_obj(b, env)) for a, b in o['i'])
     if k == 'pair':
         return Pair(build_obj(o['i'][0], env), build_obj(o['i'][1], env))
     if k == 'range':
@@ -692,6 +707,8 @@ def conforms(h, x, tower=False, env=None, _seen=None):
         if g is Shelf:
             return all(conforms(h['a'][0], kk, tower, env) and isinstance(vv, ListBox) and all(isinstance(i, int) for i in vv)
                        for kk, vv in x.items())
+        if g is IntTable:
+            return all(isinstance(kk, int) and conforms(h['a'][0], vv, tower, env) for kk, vv in x.items())
         return True
     if k == 'ref':
         return isinstance(x, env.cls(h['n']))
@@ -831,6 +848,13 @@ def must_reject(h, x, tower=False, env=None):
                 return False
             return (all(must_reject(h['a'][0], kk, tower, env) for kk, _ in items)
                     or all((not isinstance(vv, ListBox)) or (len(vv) > 0 and not any(isinstance(i, int) for i in vv)) for _, vv in items))
+        if g is IntTable:
+            items = list(x.items())
+            if not items:
+                return False
+            if 'inttable_values_unchecked' in DEFECT_MODELS:
+                return all(not isinstance(kk, int) for kk, _ in items)
+            return (all(not isinstance(kk, int) for kk, _ in items) or all(must_reject(h['a'][0], vv, tower, env) for _, vv in items))
         return False
     if k == 'ref':
         return not isinstance(x, env.cls(h['n']))
@@ -879,6 +903,8 @@ def some_path(h, x, tower=False, env=None):
             return False
         if g is ListBox:
             return len(x) == 0 or any(some_path(h['a'][0], i, tower, env) for i in x)
+        if g is IntTable:
+            return len(x) == 0 or any(isinstance(kk, int) and some_path(h['a'][0], vv, tower, env) for kk, vv in x.items())
         return True
     # leaves: anything not certainly rejected
     return not must_reject(h, x, tower, env)
@@ -1060,7 +1086,7 @@ def gen_hint(rng, depth=3, hashable=False, families=None, leafy=0.3):
     if f == 'gen':
         if hashable:
             return _gen_leaf(rng, hashable)
-        n = rng.choice(['Box', 'ListBox', 'Pair', 'Shelf'])
+        n = rng.choice(['Box', 'ListBox', 'Pair', 'Shelf', 'IntTable'])
         if n == 'Shelf':
             return {'k': 'gen', 'n': n, 'a': [{'k': 'cls', 'n': rng.choice(['str', 'bytes', 'int', 'A'])}]}
         if n == 'Pair':
@@ -1143,7 +1169,7 @@ def gen_conforming(rng, h, maxlen=4, env=None, depth=0):
             return gen_any_obj(rng, 1)
         if n in ('list', 'dict', 'tuple', 'set', 'frozenset'):
             return {'o': 'odict' if False else n, 'i': []}
-        if n in ('Box', 'ListBox'):
+        if n in ('Box', 'ListBox', 'IntTable'):
             return {'o': n.lower(), 'i': []}
         if n == 'Pair':
             return {'o': 'pair', 'i': [{'o': 'none'}, {'o': 'none'}]}
@@ -1277,6 +1303,9 @@ def gen_conforming(rng, h, maxlen=4, env=None, depth=0):
             return {'o': 'box', 'i': _gen_items(rng, h['a'][0], n, maxlen, env, depth)}
         if h['n'] == 'ListBox':
             return {'o': 'listbox', 'i': _gen_items(rng, h['a'][0], n, maxlen, env, depth)}
+        if h['n'] == 'IntTable':
+            vs = _gen_items(rng, h['a'][0], n, maxlen, env, depth)
+            return {'o': 'inttable', 'i': [[{'o': 'int', 'v': j}, v] for j, v in enumerate(vs)]}
         if h['n'] == 'Shelf':
             ks = [kk for kk in _gen_items(rng, h['a'][0], n, maxlen, env, depth, hashable=True) if _hashable(kk, env)]
             return {'o': 'shelf', 'i': _dedupe_items([[kk, {'o': 'listbox', 'i': [{'o': 'int', 'v': j} for j in range(rng.randint(0, 3))]}]
@@ -1359,6 +1388,8 @@ def gen_violating(rng, h, maxlen=4, tower=False, env=None):
         choices += ['all_keys', 'all_values', 'all_values']
     if k == 'gen' and h['n'] == 'Shelf':
         choices += ['shelf_values', 'shelf_values', 'shelf_keys']
+    if k == 'gen' and h['n'] == 'IntTable':
+        choices += ['inttable_values', 'inttable_values', 'inttable_keys']
     if k == 'counter':
         choices += ['all_keys']
     if k == 'ann':
@@ -1389,6 +1420,14 @@ def _gen_violating_at(rng, h, where, maxlen, tower, env):
         return gen_violating_leaf(rng, h, tower, env)
     if where == 'exo_bad':
         return rng.choice(EXOTICS[h['n']]['bad'])
+    if where in ('inttable_values', 'inttable_keys'):
+        items = []
+        for j in range(rng.randint(1, maxlen)):
+            if where == 'inttable_values':
+                items.append([{'o': 'int', 'v': j}, gen_violating(rng, h['a'][0], 2, tower, env)[0]])
+            else:
+                items.append([{'o': 'str', 'v': 'k%d' % j}, gen_conforming(rng, h['a'][0], 2, env)])
+        return {'o': 'inttable', 'i': items}
     if where in ('shelf_values', 'shelf_keys'):
         n = rng.randint(1, maxlen)
         items = []
